@@ -163,6 +163,18 @@ def check_c11(tier):
         scen.append({"case": f"C11-a{k}", "instance": "bgpfu", "eph0": [],
                      "runs": [{"running": running, "irr": g["irr"], "faults": [], "repeat": False,
                                "expect": {"prop": "C11", "c16": False, "policies": policies}}], "meta": {"group": k}})
+    # ... and keeps them installed: the same routers served by ONE daemon process over several jobs - the first job's
+    # commit is refused by the router / the router loses its ephemeral data between two jobs (reboot); what counts is
+    # what is installed when the last job has reported success
+    last_run = {}
+    for s in list(scen[: (12 if tier == "thorough" else 4)]):
+        run = s["runs"][0]
+        bad = dict(run, faults=[{"target": "commit", "index": 0, "kind": "rpc-error"}])
+        scen.append(dict(s, case=s["case"] + "-D1", daemon={"period": 1, "sessions": 2, "reset_before": []}, runs=[bad, run],
+                         meta=dict(s["meta"], mode="daemon: first commit refused")))
+        scen.append(dict(s, case=s["case"] + "-D2", daemon={"period": 1, "sessions": 3, "reset_before": [3]}, runs=[run],
+                         meta=dict(s["meta"], mode="daemon: ephemeral data lost before the third job")))
+        last_run[s["case"] + "-D1"] = 2; last_run[s["case"] + "-D2"] = 3
     spath = os.path.join(wd, "agent-scenarios.ndjson")
     with open(spath, "w") as f:
         for s in scen:
@@ -180,7 +192,10 @@ def check_c11(tier):
                 exit_ok[e["case"]] = e["code"] == 0
             if e["ev"] != "run_end":
                 continue
-            k = int(e["case"].split("-a")[1]); g = groups[k]
+            if e["case"] in last_run and e.get("run") != last_run[e["case"]]:
+                continue
+            k = int(e["case"].split("-a")[1].split("-")[0]); g = groups[k]
+            via = "agent (daemon, job %d)" % e["run"] if e["case"] in last_run else "agent"
             installed = {p["name"]: p for p in e["eph"]}
             for c in g["cases"][:12]:
                 pol = installed.get("p-" + c["case"])
@@ -205,7 +220,7 @@ def check_c11(tier):
                             atoms.append([4, net.prefixlen, (int(net.network_address) - int(ipaddress.IPv4Address("10.0.0.0"))) >> (32 - net.prefixlen)])
                         else:
                             atoms.append([6, net.prefixlen, (int(net.network_address) - int(ipaddress.IPv6Address("2001:db8::"))) >> (128 - net.prefixlen)])
-                out.write(json.dumps({"ev": "eval", "via": "agent", "prop": "C11", "case": c["case"], "db": g["db"], "expr": c["expr"],
+                out.write(json.dumps({"ev": "eval", "via": via, "prop": "C11", "case": c["case"], "db": g["db"], "expr": c["expr"],
                                       "expr_str": c["expr_str"], "errs": NOERR, "pos": 1, "outcome": outcome, "atoms": atoms,
                                       "extra": extra}) + "\n")
                 nagent += 1
